@@ -221,7 +221,7 @@ func (g *G) plainStmt(sc *scope, depth int) []string {
 }
 
 func (g *G) tryPlain(sc *scope, depth int) []string {
-	k := g.pick("stmtkind", 33)
+	k := g.pick("stmtkind", 34)
 	switch k {
 	case 0, 1, 2:
 		return g.defineStmt(sc, depth)
@@ -306,6 +306,8 @@ func (g *G) tryPlain(sc *scope, depth int) []string {
 		}
 	case 32:
 		return g.emptyWindowStmt(sc)
+	case 33:
+		return g.stringBytesCopyStmt(sc)
 	case 23:
 		if !g.cfg.NoBareBlocks && depth > 0 {
 			g.label("bare-block")
@@ -804,6 +806,27 @@ func (g *G) mapCommaOk(sc *scope) []string {
 	rhs := fmt.Sprintf("%s[%s]", use(m), g.expr(sc, m.T.Key, 1))
 	vn := g.freshName(sc, "cokv")
 	okn := g.freshName(sc, "cokok", vn)
+	// form × position of the two-valued lookup: definition, parenthesised, assignment to declared
+	// variables, blank value (two real defects, 6c974fd)
+	switch g.pick("cokform", 5) {
+	case 0:
+		g.label("map-comma-ok-parenthesised")
+		rhs = "(" + rhs + ")"
+	case 1:
+		g.label("map-comma-ok-assign")
+		// the variables are declared BEFORE the lookup is evaluated: their names must not shadow
+		// anything the lookup mentions
+		g.ctr++
+		vn, okn = fmt.Sprintf("cv%d", g.ctr), fmt.Sprintf("co%d", g.ctr)
+		g.fn.names[vn], g.fn.names[okn] = true, true
+		g.declare(sc, &Var{Name: vn, T: m.T.Elem, Mutable: true})
+		g.declare(sc, &Var{Name: okn, T: TBool, Mutable: true})
+		return []string{"var " + vn + " " + m.T.Elem.Go(), "var " + okn + " bool", fmt.Sprintf("%s, %s = %s", vn, okn, rhs)}
+	case 2:
+		g.label("map-comma-ok-blank-value")
+		g.declare(sc, &Var{Name: okn, T: TBool})
+		return []string{fmt.Sprintf("_, %s := %s", okn, rhs)}
+	}
 	g.declare(sc, &Var{Name: vn, T: m.T.Elem})
 	g.declare(sc, &Var{Name: okn, T: TBool})
 	return []string{fmt.Sprintf("%s, %s := %s", vn, okn, rhs)}
@@ -1427,6 +1450,55 @@ func (g *G) genericLayoutStmt(sc *scope, depth int) []string {
 				v.Used = true
 			}
 		}
+	}
+	return out
+}
+
+// stringBytesCopyStmt: conversions between strings and byte slices copy. A byte slice is converted
+// (to a string, or to a string and back — Go's idiom for copying), the original is then modified,
+// and both are read: the copy must keep the old contents (seeded change C01-26).
+func (g *G) stringBytesCopyStmt(sc *scope) []string {
+	bs := g.varsOf(sc, func(v *Var) bool {
+		return v.T != nil && v.T.K == KSlice && v.T.Elem.K == KU8 && v.MinLen >= 1 && v.Closure == nil && !v.Big
+	})
+	g.ctr++
+	n := g.ctr
+	src := fmt.Sprintf("sb%d", n)
+	var out []string
+	form := g.pick("sbform", 4)
+	if form == 3 {
+		// starts from a string literal: no byte slice needed
+	} else if len(bs) > 0 && g.chance("sbexisting", 60) {
+		src = use(bs[g.pick("sbvar", len(bs))])
+	} else {
+		g.fn.names[src] = true
+		out = append(out, fmt.Sprintf("%s := make([]byte, %d)", src, 2+g.pick("sblen", 3)), fmt.Sprintf("%s[0] = %d", src, 65+g.pick("sbinit", 20)))
+		g.declare(sc, &Var{Name: src, T: SliceOf(TU8), MinLen: 2, Used: true})
+	}
+	cp, r := fmt.Sprintf("sc%d", n), fmt.Sprintf("sr%d", n)
+	g.fn.names[cp], g.fn.names[r] = true, true
+	g.declare(sc, &Var{Name: r, T: TU64})
+	newByte := 97 + g.pick("sbnew", 20)
+	switch form {
+	case 0:
+		g.label("bytes-copied-through-string-round-trip")
+		out = append(out, fmt.Sprintf("%s := []byte(string(%s))", cp, src), fmt.Sprintf("%s[0] = %d", cp, newByte),
+			fmt.Sprintf("%s := uint64(%s[0])*1000 + uint64(%s[0])", r, src, cp))
+	case 1:
+		g.label("bytes-copied-through-string-round-trip")
+		out = append(out, fmt.Sprintf("%s := []byte((string)(%s))", cp, src), fmt.Sprintf("%s[0] = %s[0] + 1", src, src),
+			fmt.Sprintf("%s := uint64(%s[0])*1000 + uint64(%s[0])", r, src, cp))
+	case 2:
+		g.label("string-of-bytes-then-modify-bytes")
+		out = append(out, fmt.Sprintf("%s := string(%s)", cp, src), fmt.Sprintf("%s[0] = %d", src, newByte),
+			fmt.Sprintf("%s := uint64(%s[0])*1000 + uint64([]byte(%s)[0])", r, src, cp))
+	default:
+		g.label("bytes-of-string-then-modify-bytes")
+		lit := []string{"\"abc\"", "\"héllo\"", "\"zz\""}[g.pick("sblit", 3)]
+		st := fmt.Sprintf("ss%d", n)
+		g.fn.names[st] = true
+		out = append(out, fmt.Sprintf("%s := %s", st, lit), fmt.Sprintf("%s := []byte(%s)", cp, st), fmt.Sprintf("%s[0] = %d", cp, newByte),
+			fmt.Sprintf("%s := uint64(len(%s))*1000 + uint64([]byte(%s)[0]) + uint64(%s[0])", r, st, st, cp))
 	}
 	return out
 }
